@@ -1,7 +1,7 @@
 //! family `locals` (C14, part of C12): additions of locals through every local-adding API
 use crate::ctx::{guarded, show_nats, Ctx};
 use crate::rng::Rng;
-use crate::tys::{code_of_valtype, TYS};
+use crate::tys::{code_of_datatype, code_of_valtype, twin, TYS};
 use std::collections::HashMap;
 use wirm::ir::function::FunctionBuilder;
 use wirm::ir::id::{FunctionID, ModuleID};
@@ -123,6 +123,8 @@ pub fn run(ctx: &mut Ctx) {
             } else {
                 r.below(TYS.len())
             };
+            // near-miss of a run-length merge: the same type up to nullability
+            let t = if r.chance(1, 4) { twin(t).unwrap_or(t) } else { t };
             adds.push(t);
         }
         let mut wat = String::from("(module\n");
@@ -314,6 +316,6 @@ fn stored_decls(m: &Module, target: usize) -> Vec<(u32, u32)> {
     f.body
         .locals
         .iter()
-        .map(|(c, t)| (*c, code_of_valtype(wasmparser::ValType::from(t))))
+        .map(|(c, t)| (*c, code_of_datatype(t)))
         .collect()
 }
